@@ -48,12 +48,12 @@ const (
 )
 
 const (
-	ixNum     = iota // canonical non-negative decimal
-	ixDash           // "-"
-	ixNeg            // canonical negative: -[1-9][0-9]*
-	ixNonCan         // +1, 01, -0, -01 … (outside the stated domain)
-	ixNaN            // not an index at all
-	ixEmpty          // empty token (outside the stated domain)
+	ixNum    = iota // canonical non-negative decimal
+	ixDash          // "-"
+	ixNeg           // canonical negative: -[1-9][0-9]*
+	ixNonCan        // +1, 01, -0, -01 … (outside the stated domain)
+	ixNaN           // not an index at all
+	ixEmpty         // empty token (outside the stated domain)
 )
 
 // classifyIndex parses a token as an array index. The value may be symbolic.
@@ -111,6 +111,7 @@ type refState struct {
 	negOff     bool // a remove used a negative index while negative indices are off (outside C13's domain)
 	nanOnArray bool // a remove used a non-numeric last token on an array (outside C13's domain)
 	nullSlack  int64
+	idxOut     bool // the last error was an array index out of range (>= len, or < -len with negative indices on)
 }
 
 // step moves from container cur through one intermediate token; nil = unreachable.
@@ -189,11 +190,13 @@ func (s *refState) get(con *JV, t Tok) (*JV, int) {
 		switch kind {
 		case ixNum:
 			if v >= n {
+				s.idxOut = true
 				return nil, eOther
 			}
 			return con.Kids[v], eNone
 		case ixNeg:
 			if !s.opts.NegIdx || v < -n {
+				s.idxOut = s.opts.NegIdx
 				return nil, eOther
 			}
 			return con.Kids[n+v], eNone
@@ -220,6 +223,7 @@ func (s *refState) add(con *JV, t Tok, v *JV) int {
 			return eNone
 		case ixNum:
 			if i > n {
+				s.idxOut = true
 				return eOther
 			}
 			con.insElem(i, v)
@@ -227,6 +231,7 @@ func (s *refState) add(con *JV, t Tok, v *JV) int {
 		case ixNeg:
 			// dialect: position counted in the resulting array (add …/-1 appends)
 			if !s.opts.NegIdx || i < -(n+1) {
+				s.idxOut = s.opts.NegIdx
 				return eOther
 			}
 			con.insElem(n+1+i, v)
@@ -257,6 +262,7 @@ func (s *refState) remove(con *JV, t Tok) (err int, skippable bool) {
 		switch kind {
 		case ixNum:
 			if i >= n {
+				s.idxOut = true
 				return eOther, true
 			}
 			con.delElem(i)
@@ -267,6 +273,7 @@ func (s *refState) remove(con *JV, t Tok) (err int, skippable bool) {
 				return eOther, false
 			}
 			if i < -n {
+				s.idxOut = true
 				return eOther, true
 			}
 			con.delElem(n + i)
@@ -296,12 +303,14 @@ func (s *refState) replace(con *JV, t Tok, v *JV) int {
 		switch kind {
 		case ixNum:
 			if i >= n {
+				s.idxOut = true
 				return eOther
 			}
 			con.Kids[i] = v
 			return eNone
 		case ixNeg:
 			if !s.opts.NegIdx || i < -n {
+				s.idxOut = s.opts.NegIdx
 				return eOther
 			}
 			con.Kids[n+i] = v
@@ -316,15 +325,16 @@ func (s *refState) replace(con *JV, t Tok, v *JV) int {
 }
 
 type RefResult struct {
-	Doc        *JV
-	Err        int
-	FailedAt   int
-	Outside    bool
-	Skipped    []bool // per operation: a remove that AllowMissingPathOnRemove skipped
-	NegOff     bool
-	NaNOnArray bool
+	Doc                   *JV
+	Err                   int
+	FailedAt              int
+	Outside               bool
+	Skipped               []bool // per operation: a remove that AllowMissingPathOnRemove skipped
+	NegOff                bool
+	NaNOnArray            bool
 	CopyFromRootAfterEdit bool // a copy from "" that follows an operation (known finding KF-copy-root)
-	NullThenTest bool          // a test that reads a null stored by an earlier add/replace/copy/move (known finding KF-null-test)
+	NullThenTest          bool // a test that reads a null stored by an earlier add/replace/copy/move (known finding KF-null-test)
+	IdxOut                bool // the failing operation failed on an array index out of range
 }
 
 // refApply evaluates ops on a copy of doc. sizeOf (optional) measures a copied
@@ -335,6 +345,7 @@ func refApply(doc *JV, ops []Op, opts RefOpts, limit int64, sizeOf func(*JV) int
 	var total int64
 	for i, op := range ops {
 		err := eNone
+		s.idxOut = false
 		switch op.Kind {
 		case OpAdd:
 			err = s.opAdd(op)
@@ -364,6 +375,7 @@ func refApply(doc *JV, ops []Op, opts RefOpts, limit int64, sizeOf func(*JV) int
 		if err != eNone {
 			res.Err = err
 			res.FailedAt = i
+			res.IdxOut = s.idxOut && err == eOther
 			res.NegOff, res.NaNOnArray = s.negOff, s.nanOnArray
 			return res
 		}
